@@ -29,3 +29,4 @@ def run(ctx):
     fz.shift_accounting(ctx)
     fz.accept_implies_positive(ctx)
     fz.beta_divisions_guarded(ctx)
+    fz.beta_tracks_residual(ctx)
